@@ -396,7 +396,27 @@ func (c *Ctx) watchdog(limit time.Duration) {
 	}()
 }
 
+// cleanEnv gives every worker the same, small process environment so that
+// interp.NewExecEnv starts from a known store.
+func cleanEnv() {
+	tmp := os.Getenv("TMPDIR")
+	path := os.Getenv("PATH")
+	gd := os.Getenv("GODEBUG")
+	gr := os.Getenv("GORACE")
+	os.Clearenv()
+	os.Setenv("PATH", path)
+	os.Setenv("HOME", "/nonexistent/verif-home")
+	os.Setenv("GODEBUG", gd)
+	if gr != "" {
+		os.Setenv("GORACE", gr)
+	}
+	if tmp != "" {
+		os.Setenv("TMPDIR", tmp)
+	}
+}
+
 func newCtx(prop, tier string, seed int64) *Ctx {
+	cleanEnv()
 	c := &Ctx{Prop: prop, Tier: tier, Seed: seed, NShards: 1, maxViol: 40}
 	c.res.Counters = map[string]int64{}
 	c.res.Skipped = map[string]int64{}
